@@ -231,6 +231,9 @@ def gap_cases(n0, rng):
 def check(run):
     rng = random.Random(run.seed)
     run.model_check("mc/MC_MdlEdit.tla", "mc/MC_MdlEdit.cfg", workers=14)
+    # the same invariants over longer edit histories (the VIEW hides the history): 4 edits in the quick tier (1 059 222 states),
+    # 5 in the thorough tier (2 901 858); per-action coverage is read from the 3-edit run above
+    run.model_check("mc/MC_MdlEdit.tla", "mc/MC_MdlEdit_4.cfg" if run.tier == "quick" else "mc/MC_MdlEdit_5.cfg", workers=14, coverage=False, xmx="12g")
     hists, st = tlc_generate("mc/MC_MdlEdit.tla", "mc/Gen_MdlEdit.cfg", workers=14)
     run.notes["generator"] = {"histories": len(hists), **st}
     # histories with 65535-vertex meshes are kept to a few (each writes megabytes)
